@@ -198,8 +198,9 @@ def playback(crate_dir, lib_text, name, slot, timeout, log_prefix, descs=()):
     cmd = ["cargo", "kani", "--target-dir", os.path.join(WORK, "slot%d" % slot), "--output-format", "terse",
            "-Z", "stubbing", "-Z", "unstable-options", "-Z", "concrete-playback", "--concrete-playback=print", "--exact",
            "--harness", MODPATH + name] + LEAK_ARGS
-    # kani-driver itself parses the JSON trace here: 12 GB of address space is not enough for it (measured), hence 24
-    rc, txt, dt = vlib.run_cmd(cmd, cwd=crate_dir, timeout=timeout, mem_gb=24, log=log_prefix + "_print.log",
+    # kani-driver itself parses the JSON trace here: measured 24 GB RESIDENT for a 2-element list<record{u64,string}> harness,
+    # so the address-space cap of this (rare: only after a violation) step is 40 GB
+    rc, txt, dt = vlib.run_cmd(cmd, cwd=crate_dir, timeout=timeout, mem_gb=40, log=log_prefix + "_print.log",
                                env={"CARGO_NET_OFFLINE": "true"})
     if rc == -9:
         out["native"] = "not run: kani concrete playback did not finish within %d s" % timeout
